@@ -124,8 +124,10 @@ ConsX(m, g, g2, ev) ==
     \* a query about a past ledger returns the value that held at the end of that ledger
     [] m = "C13_past"     -> \A i \in DOMAIN obs.past :
                                LET q == obs.past[i] IN
-                               q.l < ev.now => /\ \A d \in S : q.v[d] = HistP(g.tl, d, q.l)
-                                               /\ q.t = HistT(g.tl, q.l)
+                               q.l < ev.now =>
+                                 \A k \in {HistIdx(g.tl, q.l)} :       \* (bound once)
+                                   /\ \A d \in S : q.v[d] = IF k = 0 THEN 0 ELSE g.tl[k].p[d]
+                                   /\ q.t = IF k = 0 THEN 0 ELSE g.tl[k].t
     \* no later operation changes an answer about the past
     [] m = "C13_immutable_past" -> \A i \in DOMAIN g.last : \A j \in DOMAIN obs.past :
                                      g.last[i].l = obs.past[j].l =>
